@@ -354,6 +354,33 @@ static bool apply(op const& o) {
     }
 }
 
+// After an operation has thrown, every surviving image must be a fully valid image - including the state that
+// only later operations consult (recorded alignment, capacity, allocator).  The probe re-creates each image in
+// place with the failed operation's alignment and with another one (same dimensions: only the recorded alignment
+// decides between "nothing to do" and a new layout), checks the requested row alignment, then shrinks it within
+// its capacity and rewrites every pixel (any stale capacity or pointer ends in a sanitizer report).
+static void post_failure_probe(op const& failed, const char* phase) {
+    for (int s = 0; s < NS; ++s) {
+        if (!g_img[s]) continue;
+        img_t& im = *g_img[s];
+        const size_t als[2] = {failed.al, (size_t)(failed.al == 16 ? 4 : 16)};
+        for (size_t al : als) {
+            long w = im.width(), h = im.height();
+            im.recreate(w, h, al);
+            ++n_checks;
+            if (im.width() != w || im.height() != h) vh::viol(key("post-failure-recreate-dims"), vh::cat(phase, ": image ", s, " | history: ", g_hist));
+            view_t v = gil::view(im);
+            if (al > 0 && w > 0)
+                for (long y = 0; y < h; ++y)
+                    if (row_addr(v, y) % al != 0 || row_bit(v, y) != 0) { vh::viol(key("post-failure-row-alignment"), vh::cat(phase, ": after the failed operation, recreate(", w, "x", h, ", alignment ", al, ") left row ", y, " at ", (void*)row_addr(v, y), " | history: ", g_hist)); break; }
+        }
+        if (im.width() > 1) im.recreate(im.width() - 1, im.height(), als[1]);
+        shadow& sh = g_sh[s];
+        sh.alive = true; sh.align = als[1]; sh.align_known = true; sh.resize(im.width(), im.height());
+        fill_pattern_into(s, 0x9e3779b9ull + (uint64_t)s);
+    }
+}
+
 // Runs a history.  fail_alloc / fail_ctor >= 0: inject a failure at that allocation / construction point.
 static void run_history(std::vector<op> const& ops, long fail_alloc, long fail_ctor, long& alloc_points, long& ctor_points) {
     led::L().alloc_points = 0; telem::ctor_points() = 0;
@@ -369,10 +396,14 @@ static void run_history(std::vector<op> const& ops, long fail_alloc, long fail_c
             // the target must still hold a valid image: it is re-read completely (any sanitizer report here is a refutation)
             for (int s = 0; s < NS; ++s) { if (g_img[s]) { g_sh[s].alive = true; sync_from_image(s); g_sh[s].align_known = false; } else g_sh[s].alive = false; }
             if (!g_other) g_osh.alive = false;
+            check_all(phase);
+            post_failure_probe(ops[i], phase);
         } catch (std::runtime_error const&) {
             vh::obs(vh::cat("ctor-exception-survived.", g_opname));
             for (int s = 0; s < NS; ++s) { if (g_img[s]) { g_sh[s].alive = true; sync_from_image(s); g_sh[s].align_known = false; } else g_sh[s].alive = false; }
             if (!g_other) g_osh.alive = false;
+            check_all(phase);
+            post_failure_probe(ops[i], phase);
         }
         check_all(phase);
     }
